@@ -228,6 +228,27 @@ func runC04(r *core.Run) {
 		clipStats[name] = [2]int64{clo.Load(), chi.Load()}
 		ntPerPair[name] = nt
 	}
+	// all pairs at once: sixteen workers, each converting through a different pair at any moment
+	// (above, one pair at a time is spread over the workers, so concurrent calls always share the
+	// adaptation; state keyed on "the adaptation used last" shows only when pairs interleave)
+	{
+		rg := core.NewRNG(r.Seed, "C04", "mixed-pairs")
+		px := make([]color.NRGBA, 6000)
+		for i := range px {
+			v := rg.U32()
+			px[i] = color.NRGBA{R: uint8(v), G: uint8(v >> 8), B: uint8(v >> 16), A: 255}
+		}
+		core.ParallelFor(16, 16, func(w int) {
+			for i, c := range px {
+				p := pairs[(i+w*5)%len(pairs)]
+				if bad, msg, _, _, _ := p.check(c); bad {
+					r.Violate("pixel", p.src.Name+"->"+p.dst.Name+"/pairs-interleaved", msg+" (sixteen goroutines converting through different pairs at once)", c04Case{p.src.Name, p.dst.Name, [4]uint8{c.R, c.G, c.B, c.A}})
+					return
+				}
+			}
+			r.AddEvals(int64(len(px)))
+		})
+	}
 	if r.Variant == "" {
 		for _, v := range []string{"rev@3", "encfirst+rev@1", "warm@4", "genfirst+rot1@2"} {
 			r.RunVariantChild(v, 10*time.Minute, false)
